@@ -15,73 +15,95 @@ CONSTANTS Tokens,       \* strings a remainder is assembled from
           StartPaths,   \* remainders to start from
           Fbs, Ranges,
           Zones,        \* process time zones
-          ImsFor(_)     \* If-Modified-Since values offered under a zone
+          ImsFor(_),    \* If-Modified-Since values offered under a zone
+          Clocks,       \* positions of the server clock relative to the modification time
+          MStates,      \* initial states of the mutable file
+          MaxReq,       \* requests per history on one route object
+          MemoResolved  \* wrong design: the route remembers, per request path, the file it served
 
-VARIABLES phase, rq, ntok, file, opens, resp
-vars == <<phase, rq, ntok, file, opens, resp>>
+VARIABLES phase, rq, ntok, file, opens, resp,
+          nreq,         \* number of the request in the history (the fallback configuration is fixed by the first)
+          memo,         \* wrong design only: set of <<request path, file path string>>
+          h             \* the finished requests of the history: [m, c, e]
+vars == <<phase, rq, ntok, file, opens, resp, nreq, memo, h, mstate>>
 
 NoResp == Resp(0, <<>>, NoCR, -1)
-Case(path, fb, head, range, ims, zone) ==
-    [path |-> path, fb |-> fb, head |-> head, range |-> range, ims |-> ims, zone |-> zone]
+Case(path, fb, head, range, ims, zone, clock) ==
+    [path |-> path, fb |-> fb, head |-> head, range |-> range, ims |-> ims, zone |-> zone, clock |-> clock]
 NoRange == [k |-> "none", a |-> 0, b |-> 0]
 
 Init == /\ phase = "build" /\ ntok = 0 /\ file = FAIL /\ opens = <<>> /\ resp = NoResp
-        /\ \E p \in StartPaths : rq = Case(p, "none", "under", NoRange, NoIms, "UTC")
+        /\ nreq = 1 /\ memo = {} /\ h = <<>> /\ mstate \in MStates
+        /\ \E p \in StartPaths : rq = Case(p, "none", "under", NoRange, NoIms, "UTC", "past")
 
 Extend == /\ phase = "build" /\ ntok < MaxTokens
           /\ \E t \in Tokens : rq' = [rq EXCEPT !.path = @ \o t]
           /\ ntok' = ntok + 1
-          /\ UNCHANGED <<phase, file, opens, resp>>
+          /\ UNCHANGED <<nreq, memo, h, mstate, phase, file, opens, resp>>
 
 Submit == /\ phase = "build"
-          /\ \E fb \in Fbs, r \in Ranges, z \in Zones,
-                h \in (IF rq.path = <<>> THEN {"under", "bare"} ELSE {"under"}) :
-                \E i \in ImsFor(z) : rq' = Case(rq.path, fb, h, r, i, z)
+          /\ \E fb \in (IF nreq = 1 THEN Fbs ELSE {rq.fb}), r \in Ranges, z \in Zones, k \in Clocks,
+                hd \in (IF rq.path = <<>> THEN {"under", "bare"} ELSE {"under"}) :
+                \E i \in ImsFor(z) : rq' = Case(rq.path, fb, hd, r, i, z, k)
           /\ phase' = "sanitise"
-          /\ UNCHANGED <<ntok, file, opens, resp>>
+          /\ UNCHANGED <<nreq, memo, h, mstate, ntok, file, opens, resp>>
 
 Finish(r) == phase' = "done" /\ resp' = r
 HasFb == rq.fb # "none"
 Norm == NormPath(rq.path)
-Fp   == FilePath(Norm)
+Remembered == {e \in memo : e[1] = rq.path}
+Fp   == IF MemoResolved /\ Remembered # {} THEN (CHOOSE e \in Remembered : TRUE)[2] ELSE FilePath(Norm)
 
 NoMatch == /\ phase = "sanitise" /\ rq.head = "bare" /\ ~HasFb
-           /\ Finish(Err(404)) /\ UNCHANGED <<rq, ntok, file, opens>>
+           /\ Finish(Err(404)) /\ UNCHANGED <<nreq, memo, h, mstate, rq, ntok, file, opens>>
 SanitiseReject == /\ phase = "sanitise" /\ ~(rq.head = "bare" /\ ~HasFb)
                   /\ (Rejects(rq.path, HasFb) \/ PrefixReject(Norm) \/ FinalReject(Fp))
-                  /\ Finish(Err(404)) /\ UNCHANGED <<rq, ntok, file, opens>>
+                  /\ Finish(Err(404)) /\ UNCHANGED <<nreq, memo, h, mstate, rq, ntok, file, opens>>
 SanitiseAccept == /\ phase = "sanitise" /\ ~(rq.head = "bare" /\ ~HasFb)
                   /\ ~(Rejects(rq.path, HasFb) \/ PrefixReject(Norm) \/ FinalReject(Fp))
-                  /\ phase' = "open" /\ UNCHANGED <<rq, ntok, file, opens, resp>>
+                  /\ phase' = "open" /\ UNCHANGED <<nreq, memo, h, mstate, rq, ntok, file, opens, resp>>
 
 OpenRequested == /\ phase = "open" /\ OpenResult(Fp) # FAIL
                  /\ file' = OpenResult(Fp) /\ opens' = <<Loc(Fp, rq.fb)>>
-                 /\ phase' = "cond" /\ UNCHANGED <<rq, ntok, resp>>
+                 /\ phase' = "cond" /\ UNCHANGED <<nreq, memo, h, mstate, rq, ntok, resp>>
 OpenFallback  == /\ phase = "open" /\ OpenResult(Fp) = FAIL /\ HasFb
                  /\ file' = FbPath(rq.fb) /\ opens' = <<Loc(Fp, rq.fb), Loc(FbStr(rq.fb), rq.fb)>>
-                 /\ phase' = "cond" /\ UNCHANGED <<rq, ntok, resp>>
+                 /\ phase' = "cond" /\ UNCHANGED <<nreq, memo, h, mstate, rq, ntok, resp>>
 OpenMiss      == /\ phase = "open" /\ OpenResult(Fp) = FAIL /\ ~HasFb
                  /\ opens' = <<Loc(Fp, rq.fb)>>
-                 /\ Finish(Err(404)) /\ UNCHANGED <<rq, ntok, file>>
+                 /\ Finish(Err(404)) /\ UNCHANGED <<nreq, memo, h, mstate, rq, ntok, file>>
 
 BadDate     == /\ phase = "cond" /\ rq.ims.k = "bad"
-               /\ Finish(Err(400)) /\ UNCHANGED <<rq, ntok, file, opens>>
+               /\ Finish(Err(400)) /\ UNCHANGED <<nreq, memo, h, mstate, rq, ntok, file, opens>>
 NotModified304 == /\ phase = "cond" /\ rq.ims.k # "bad" /\ NotModified(rq)
-               /\ Finish(Resp(304, <<>>, NoCR, -1)) /\ UNCHANGED <<rq, ntok, file, opens>>
+               /\ Finish(Resp(304, <<>>, NoCR, -1)) /\ UNCHANGED <<nreq, memo, h, mstate, rq, ntok, file, opens>>
 Modified    == /\ phase = "cond" /\ rq.ims.k # "bad" /\ ~NotModified(rq)
-               /\ phase' = "range" /\ UNCHANGED <<rq, ntok, file, opens, resp>>
+               /\ phase' = "range" /\ UNCHANGED <<nreq, memo, h, mstate, rq, ntok, file, opens, resp>>
 
 RangeResult  == RangeDesign(Content(file), rq.range)
 RangeFull    == /\ phase = "range" /\ RangeResult.status = 200
-                /\ Finish(RangeResult) /\ UNCHANGED <<rq, ntok, file, opens>>
+                /\ Finish(RangeResult) /\ UNCHANGED <<nreq, memo, h, mstate, rq, ntok, file, opens>>
 RangePartial == /\ phase = "range" /\ RangeResult.status = 206
-                /\ Finish(RangeResult) /\ UNCHANGED <<rq, ntok, file, opens>>
+                /\ Finish(RangeResult) /\ UNCHANGED <<nreq, memo, h, mstate, rq, ntok, file, opens>>
 RangeUnsat   == /\ phase = "range" /\ RangeResult.status = 416
-                /\ Finish(RangeResult) /\ UNCHANGED <<rq, ntok, file, opens>>
+                /\ Finish(RangeResult) /\ UNCHANGED <<nreq, memo, h, mstate, rq, ntok, file, opens>>
 RangeBad     == /\ phase = "range" /\ RangeResult.status = 400
-                /\ Finish(RangeResult) /\ UNCHANGED <<rq, ntok, file, opens>>
+                /\ Finish(RangeResult) /\ UNCHANGED <<nreq, memo, h, mstate, rq, ntok, file, opens>>
 
-Next == Extend \/ Submit \/ NoMatch \/ SanitiseReject \/ SanitiseAccept \/ OpenRequested \/ OpenFallback
+(* between two requests on the same route object the file system may change *)
+Again(m) == /\ phase = "done" /\ nreq < MaxReq
+            /\ mstate' = m /\ nreq' = nreq + 1
+            /\ h' = Append(h, [m |-> mstate, c |-> rq, e |-> Obs(resp, opens)])
+            /\ memo' = (IF MemoResolved /\ file # FAIL
+                        THEN {e \in memo : e[1] # rq.path} \cup {<<rq.path, <<SEP>> \o JoinSegs(file)>>} ELSE memo)
+            /\ phase' = "build" /\ ntok' = 0 /\ file' = FAIL /\ opens' = <<>> /\ resp' = NoResp
+            /\ \E p \in StartPaths \cup {rq.path} : rq' = [rq EXCEPT !.path = p]
+NextRequest == Again(mstate)
+CreateFile  == mstate = 0 /\ \E m \in {1, 2} : Again(m)
+RemoveFile  == mstate # 0 /\ Again(0)
+ReplaceFile == mstate # 0 /\ Again(3 - mstate)
+
+Next == NextRequest \/ CreateFile \/ RemoveFile \/ ReplaceFile \/ Extend \/ Submit \/ NoMatch \/ SanitiseReject \/ SanitiseAccept \/ OpenRequested \/ OpenFallback
         \/ OpenMiss \/ BadDate \/ NotModified304 \/ Modified \/ RangeFull \/ RangePartial \/ RangeUnsat \/ RangeBad
 Spec == Init /\ [][Next]_vars
 
@@ -94,6 +116,8 @@ Containment == \A i \in 1..Len(opens) : opens[i] = "in" \/ (opens[i] = "fb" /\ r
 ServedIsInside == file # FAIL => (IsFile(file) /\ (IsPrefix(Root, file) \/ (HasFb /\ file = FbPath(rq.fb))))
 NothingElseIs404 == (Done /\ file = FAIL) => resp.status = 404
 MachineIsFunction == Done => O = Expected(rq)
+(* every response of a history is the function of the file system at the time of that request *)
+ResponseFollowsFileSystem == Done => (O = Expected(rq) /\ PVerdict(rq, O) = "ok")
 DesignMeetsProperty == Done => PVerdict(rq, O) = "ok"
 FullExact  == (Served /\ resp.status = 200) => (resp.body = Content(file) /\ resp.clen = Len(resp.body) /\ resp.cr = NoCR)
 SliceExact == (Served /\ resp.status = 206) =>
@@ -107,4 +131,6 @@ UnsatCarriesSize == (Served /\ resp.status = 416) => (resp.cr = Star(Len(Content
 NotModifiedNoBody == (Done /\ resp.status = 304) => (resp.body = <<>> /\ rq.ims.k = "date" /\ rq.ims.d >= 0 /\ file # FAIL)
 (* the time zone of the process is an environment dimension: the whole outcome is the same under every zone *)
 DecisionIndependentOfZone == Done => \A z \in AllZones : Expected([rq EXCEPT !.zone = z]) = Expected(rq)
+(* neither may it depend on where the server's clock stands relative to the dates involved *)
+DecisionIndependentOfClock == Done => \A k \in AllClocks : Expected([rq EXCEPT !.clock = k]) = Expected(rq)
 =============================================================================
